@@ -1,4 +1,5 @@
 import Stackage.Model.Alphabet
+import Stackage.Lemmas.Bits
 
 /-!
 # C09 — a read-only Stack or Condition cannot be changed
@@ -133,7 +134,80 @@ theorem C09_restore (sem : StackSem) (s : Stk) (hk : s.cfg.kind ≠ 0) (hclear :
   unfold Stk.setState Cfg.setState Cfg.setOpt Cfg.unsetOpt
   simp [hv, Cfg.valid, hk, hopt]
 
+/-! ### the same without the bit-level hypotheses -/
+
+theorem flag_ronly_pow : Gen.flag_ronly = 2 ^ 7 := by decide
+
+/-- on an initialised, writable configuration (`cfgFlag` is a `uint16`), setting and then clearing the read-only
+bit gives the option word back -/
+theorem opt_restore (c : Cfg) (hk : c.kind ≠ 0) (hclear : c.positive Gen.flag_ronly = false) (hw : c.opt < 65536) :
+    Gen.cfgFlag_unshift (Gen.cfgFlag_shift c.opt Gen.flag_ronly) Gen.flag_ronly = c.opt := by
+  have hv : c.valid = true := by simp [Cfg.valid, hk]
+  rw [flag_ronly_pow] at hclear ⊢
+  unfold Cfg.positive at hclear
+  rw [hv, Bool.true_and, Bits.positive_two_pow] at hclear
+  exact Bits.unshift_shift_of_clear c.opt 7 (by decide) hw hclear
+
+/-- `SetReadOnly(true)` on an initialised instance sets the flag -/
+theorem setReadOnly_positive (c : Cfg) (hk : c.kind ≠ 0) :
+    (c.setState Gen.flag_ronly (some true)).positive Gen.flag_ronly = true := by
+  have hv : c.valid = true := by simp [Cfg.valid, hk]
+  unfold Cfg.setState Cfg.setOpt
+  simp only [beq_self_eq_true, Bool.or_true, if_true, hv]
+  unfold Cfg.positive Cfg.valid
+  simp only [ne_eq, hk, not_false_eq_true, bne_iff_ne, decide_true, Bool.true_and]
+  rw [flag_ronly_pow, Bits.positive_two_pow, Bits.testBit_shift]; simp [hk]
+
+/-- **C09 (restore), from the flag alone.** `hopt` and `hset` of `C09_restore` follow from the instance being
+initialised and writable; `hw` is the representation invariant of the option word (`cfgFlag` is a `uint16`). -/
+theorem C09_restore' (sem : StackSem) (s : Stk) (hk : s.cfg.kind ≠ 0) (hclear : s.readOnly = false)
+    (hw : s.cfg.opt < 65536)
+    (calls : List (MethodInfo × List Arg))
+    (hc : ∀ c ∈ calls, c.1.cls ≠ .setReadOnly ∧ c.1.cls ≠ .setErr ∧ (c.1.cls = .setState → triFlag "Stack" c.1.name ≠ Gen.flag_ronly)) :
+    ((calls.foldl (fun h c => (stackStep sem h c.1 c.2).1) (some (s.setState Gen.flag_ronly (some true)))).map
+      (fun s' => s'.setState Gen.flag_ronly (some false))) = some s :=
+  C09_restore sem s hk hclear
+    (opt_restore s.cfg hk (by rw [← stk_readOnly_eq]; exact hclear) hw) calls hc
+    (by rw [stk_readOnly_eq]; exact setReadOnly_positive s.cfg hk)
+
+/-- a whole sequence of non-exception calls leaves a read-only Condition as it was -/
+theorem C09_frozen_history_cond (sem : CondSem) (c : Cnd) (hro : c.readOnly = true) (calls : List (MethodInfo × List Arg))
+    (hc : ∀ d ∈ calls, d.1.cls ≠ .setReadOnly ∧ d.1.cls ≠ .setErr ∧ d.1.cls ≠ .init ∧
+      (d.1.cls = .setState → triFlag "Condition" d.1.name ≠ Gen.flag_ronly)) :
+    calls.foldl (fun h d => (condStep sem h d.1 d.2).1) (some c) = some c := by
+  induction calls with
+  | nil => rfl
+  | cons d rest ih =>
+    simp only [List.foldl_cons]
+    have hcc := hc d (by simp)
+    rw [C09_frozen_cond sem c d.1 d.2 hro hcc.1 hcc.2.1 hcc.2.2.1 hcc.2.2.2]
+    exact ih (fun e he => hc e (by simp [he]))
+
+/-- **C09 (restore, Condition).** Set the flag, any calls other than the exceptions (SetReadOnly, SetErr, Init),
+clear it: the Condition is the original one. -/
+theorem C09_restore_cond (sem : CondSem) (c : Cnd) (hk : c.cfg.kind ≠ 0) (hclear : c.readOnly = false)
+    (hw : c.cfg.opt < 65536)
+    (calls : List (MethodInfo × List Arg))
+    (hc : ∀ d ∈ calls, d.1.cls ≠ .setReadOnly ∧ d.1.cls ≠ .setErr ∧ d.1.cls ≠ .init ∧
+      (d.1.cls = .setState → triFlag "Condition" d.1.name ≠ Gen.flag_ronly)) :
+    ((calls.foldl (fun h d => (condStep sem h d.1 d.2).1)
+        (some { c with cfg := c.cfg.setState Gen.flag_ronly (some true) })).map
+      (fun c' => { c' with cfg := c'.cfg.setState Gen.flag_ronly (some false) })) = some c := by
+  rw [C09_frozen_history_cond sem _ (by rw [cnd_readOnly_eq]; exact setReadOnly_positive c.cfg hk) calls hc]
+  simp only [Option.map_some, Option.some.injEq]
+  have hv : c.cfg.valid = true := by simp [Cfg.valid, hk]
+  have hopt := opt_restore c.cfg hk (by rw [← cnd_readOnly_eq]; exact hclear) hw
+  unfold Cfg.setState Cfg.setOpt Cfg.unsetOpt
+  simp [hv, Cfg.valid, hk, hopt]
+
 example : ∃ s : Stk, s.readOnly = true ∧ s.xs.length = 2 :=
   ⟨⟨{ kind := 1, opt := 128 }, [.nil, .leaf (.int 1)]⟩, by decide, rfl⟩
+
+/-- the hypotheses of `C09_restore'` hold of a writable stack with other options set -/
+example : ∃ s : Stk, s.cfg.kind ≠ 0 ∧ s.readOnly = false ∧ s.cfg.opt < 65536 ∧ s.cfg.opt ≠ 0 ∧ s.xs.length = 2 :=
+  ⟨⟨{ kind := 1, opt := 3 + 256 }, [.nil, .leaf (.int 1)]⟩, by decide, by decide, by decide, by decide, rfl⟩
+
+/-- outside the 16-bit range the model's `&^` drops the high bits: `hw` is needed in the model (never in Go) -/
+example : Gen.cfgFlag_unshift (Gen.cfgFlag_shift 65536 Gen.flag_ronly) Gen.flag_ronly ≠ 65536 := by decide
 
 end Stackage
